@@ -670,6 +670,8 @@ class NoReturnOracle:
                 return True
         if leaf is None:
             return False
+        if isinstance(call.func, ast.Attribute) and is_logger_expr(call.func.value):
+            return False  # logger.error(...) / self._logger.error(...) is logging, not the parser's no-return error()
         quals = self.by_leaf.get(leaf)
         if not quals:
             return False
